@@ -401,6 +401,7 @@ let exec (op : string) : unit =
     | [ "clearlong" ] -> "ok"
     | [ "key" ] -> with_board (fun b -> key_spec b; Printf.sprintf "key %016Lx" (u64_of_n b.hash))
     | [ "sctx"; d ] -> sdepth := int_of_string d; "ok"
+    | [ "attl"; _ ] -> "SKIP"    (* long-lived vs cache-cleared attack map, decided by the harness *)
     | [ "genlx" ] -> "SKIP"      (* long-lived vs cache-cleared generator, decided by the harness *)
     | "searchx" :: _ -> "SKIP"   (* decided by the harness against its own plain minimax *)
     | ("search" | "sched") :: _ ->
